@@ -20,7 +20,7 @@ from . import C05
 EXPLANATION = ("Who-may-call sets are computed from resolved callees over the whole crate; operand provenance of every "
                "Hal::share/unshare/queue_set call is recovered symbolically on the inlined submission/completion graphs; the "
                "read-before-clear order of descriptor addresses is decided on the loop-free (back-edge-removed) graph.")
-FLOORS = {'share_fns': 1, 'unshare_sites': {'*': 3, 'noalloc': 1}, 'dma_alloc_sites': 1, 'dma_dealloc_sites': 1, 'queue_set_addr_args': 3}
+FLOORS = {'share_fns': 1, 'unshare_sites': 1, 'dma_alloc_sites': 1, 'dma_dealloc_sites': 1, 'queue_set_addr_args': 3}
 
 
 def fns_calling(F, trait, method):
